@@ -23,7 +23,7 @@ CONSTRUCTORS = ['Seq', 'List', 'Left', 'Right', 'Opt', 'Some', 'Sep', 'Choice', 
                 'Fail', 'Backtrack', 'Let', 'Where', 'Apply', 'Rule', 'Class', 'Call', 'Ref', 'Str', 'Regex', 'Byte',
                 'Discard', 'KeywordArg', 'OperatorTable', 'PythonExpression']
 # locals and parameters of the runtime's own functions, and the lambda parameter the renderer uses
-RUNTIME_LOCALS = ['operand', 'operator', 'prec', 'text', 'pos', 'fullparse', 'node', 'stack', 'memo', 'key', 'gtor', 'result', 'visited', 'callbacks',
+RUNTIME_LOCALS = ['self', 'cls', 'operand', 'operator', 'prec', 'text', 'pos', 'fullparse', 'node', 'stack', 'memo', 'key', 'gtor', 'result', 'visited', 'callbacks',
                   'field', 'child', 'parent', 'kw', 'other', 'index', 'column', 'message', 'start_pos', 'v_']
 # identifiers that merely START with a word of the grammar language
 LANGUAGE_PREFIXES = ['letter', 'Nonempty', 'Truely', 'Falsey', 'wherever', 'inward', 'classy', 'passing', 'ignoreme',
@@ -75,7 +75,7 @@ def enumerate_cases(chk, pool, label, dyn=False):
         shutil.rmtree(d, ignore_errors=True)
 
 
-SPLIT = ('ZW', 'ZB', 'ZC')
+SPLIT = ('ZW', 'ZB', 'ZC', 'ZI')
 
 
 def split_worker(case):
@@ -134,8 +134,16 @@ def run(chk):
                         'module; additionally the words the grammar language itself reserves are not used as new names',
                         'known findings are identified by (pool name, role, failure signature)']
     taken = {'Item', 'Word', 'Pair', 'key', 'val', 'gap', 'Wrap', 'p', 'tmp', 'Box', 'q', 'it', 'n', 'stars', 'start', 'm', 'xs',
-             'Cnt', 'more', 'Zlast', 't', 'Tab', 'Tuse', 'ZW', 'ZB', 'ZC'}
-    fixed = [n for n in dict.fromkeys(TEMPORARIES + BUILTINS + CONSTRUCTORS + RUNTIME_LOCALS + LANGUAGE_PREFIXES + PLAIN) if usable(n, taken)]
+             'Cnt', 'more', 'Zlast', 't', 'Tab', 'Tuse', 'ZW', 'ZB', 'ZC', 'h', 'z', 'Inv', 'ZI'}
+    # every public attribute of the package the translator looks constructors up in (classes, helper functions, submodules)
+    import sys
+    if realrun.REPO not in sys.path:
+        sys.path.insert(0, realrun.REPO)
+    import sourcer.expressions as _ex
+    package_attrs = sorted(n for n in dir(_ex) if not n.startswith('_'))
+    chk.notes['expression_package_attributes'] = len(package_attrs)
+    fixed = [n for n in dict.fromkeys(TEMPORARIES + BUILTINS + CONSTRUCTORS + RUNTIME_LOCALS + LANGUAGE_PREFIXES + PLAIN
+                                      + package_attrs) if usable(n, taken)]
     if chk.tier == 'quick':
         fixed = fixed[::1]
     cases = enumerate_cases(chk, fixed, 'MC_C20(fixed pool)')
@@ -145,7 +153,12 @@ def run(chk):
     rec = engine.run_real([dict(probe, id=0)], fn='source_worker')[0]
     if rec['build'][0] != 'ok':
         raise MachineryFailure('cannot obtain generated source: %r' % (rec['build'],))
-    dyn = sorted(n for n in source_identifiers(rec['obs'][0]) if usable(n, taken) and n not in fixed)
+    # ... and of the same grammar compiled with a `grammar <name>` header (which adds the context registration code)
+    rec2 = engine.run_real([dict(probe, id=0, cfg=dict(probe.get('cfg') or {}, name='vg_c20src'))], fn='source_worker')[0]
+    if rec2['build'][0] != 'ok':
+        raise MachineryFailure('cannot obtain generated source (named): %r' % (rec2['build'],))
+    idents = source_identifiers(rec['obs'][0]) | source_identifiers(rec2['obs'][0])
+    dyn = sorted(n for n in idents if usable(n, taken) and n not in fixed)
     chk.notes['dynamic_pool'] = len(dyn)
     chk.notes['dynamic_pool_sample'] = dyn[:25]
     cases2 = enumerate_cases(chk, dyn, 'MC_C20(dynamic pool)', dyn=True) if dyn else []
@@ -155,8 +168,19 @@ def run(chk):
         raise MachineryFailure('renamed grammar ill-formed in the specification: %r' % (ill[0].get('cfg'),))
     for i, c in enumerate(allc):
         c['id'] = i
-        c['cfg'] = dict(c.get('cfg') or {}, timeout_scale=0.4)      # tiny grammars, tiny inputs: 2 s (12 s to confirm)
+        c['cfg'] = dict(c.get('cfg') or {}, timeout_scale=0.4,      # tiny grammars, tiny inputs: 2 s (12 s to confirm)
+                        objproto=True)                            # + _asdict / _replace / transform on every instance
     pegcheck.replay(chk, allc, tagger=tagger, sample_every=2999, timeout_budget=200)
+    # the renamings of module-level names (rules, classes, templates) again in a grammar with a `grammar <name>` header
+    named = []
+    for c in allc:
+        cfg = c.get('cfg') or {}
+        if cfg.get('role') in ('rule', 'class', 'template', 'class template'):
+            c2 = dict(c, id=len(named))
+            c2['cfg'] = dict(cfg, name='vg_c20n_%d' % len(named))
+            named.append(c2)
+    chk.notes['named_grammar_cases'] = len(named)
+    pegcheck.replay(chk, named, tagger=tagger, sample_every=2999, timeout_budget=200)
     # the same renamed grammars split over a base and a derived module (template roles)
     split = []
     for c in allc:
